@@ -37,7 +37,7 @@ ASSUMPTIONS = ["values of uint-format options are compared as integers, of strin
                "part of the statement)"]
 EXPECTED_PROBES = ["corrupted_dropped", "corrupted_dispatched", "delta_13", "delta_269", "length_13", "length_269",
                    "payload_ff", "unknown_option", "repeated_option", "api_round_trip", "all_bit_flips", "all_truncations",
-                   "alive_after_faults", "built_with_history"]
+                   "alive_after_faults", "built_with_history", "more_than_1024_options"]
 
 STRING_OPTS = [3, 8, 11, 15, 20, 35, 39]
 UINT_OPTS = [6, 7, 12, 14, 17, 28, 60, 258, 16]
@@ -494,6 +494,8 @@ def execute(sim, scn):
                                                                         "parsed": repr(snapshot(back))[:300]})
 
     for i, op in enumerate(scn["ops"]):
+        if len((op.get("msg") or {}).get("options") or []) > 1024:
+            sim.probe("more_than_1024_options")
         if op["op"] == "raw":
             loop.at(op["t"], do_raw, op)
         elif op["op"] == "build":
